@@ -1260,6 +1260,58 @@ example : ∃ g, replay (decode r1.limit (r1.files.getD 0 [])) = .ok g ∧ AllIn
     0 _ (by simp [r2, r1, r0, BSys.init, setReaderB])
 end DiskReaderRun
 
+/-! ### `claim` as a process of the byte-level system on the JSON file of the demo batch (C01 on the bytes) -/
+section ClaimBytesRun
+open ProcB Proc
+theorem cd_decides : claimDecide "ag-9" "" 700 batchA = .ok wrC := by decide +kernel
+theorem cd_wf : ∀ snap wr, AllWf snap → claimDecide "ag-9" "" 700 snap = .ok wr → AllWf wr.events := by
+  intro snap wr hs h
+  apply cmdWriter_wf envC envC_T secC snap wr hs
+  rw [← h]
+  simp only [cmdWriter, claimDecide, runSec, envC, secC]
+  have hnow : ({ agent := "ag-9", times := [700] } : Env).now = 700 := rfl
+  rw [hnow]
+  cases replay snap with
+  | error e => rfl
+  | ok g =>
+    simp only
+    cases secClaimOldest g "" "ag-9" 700 with
+    | error e => rfl
+    | ok x => rfl
+noncomputable def k0 : BSys := BSys.init rfile [claimDecide "ag-9" "" 700] 0 rLimit ets
+noncomputable def k1 : BSys := { setPhaseB k0 0 .locked with holder := some 0 }
+noncomputable def k2 : BSys := setPhaseB k1 0 (.read batchA)
+noncomputable def k3 : BSys := { setPhaseB (writeBytes k2 wrC) 0 (.wrote batchA wrC) with commits := k2.commits ++ [(0, batchA, wrC)] }
+theorem kstep01 : BStep k0 k1 := BStep.lockOk k0 0 ⟨claimDecide "ag-9" "" 700, .start⟩ rfl rfl rfl
+theorem kstep12 : BStep k1 k2 := BStep.read k1 0 ⟨claimDecide "ag-9" "" 700, .locked⟩ batchA rfl rfl rfile_reads
+theorem kfits : Fits k2 (wEvents wrC) := fun e he => (rShort e (List.mem_append_right _ he)).2
+theorem kstep23 : BStep k2 k3 := BStep.write k2 0 ⟨claimDecide "ag-9" "" 700, .read batchA⟩ batchA wrC rfl rfl cd_decides kfits
+theorem knot_torn_01 : ¬ Torn k0 k1 := by
+  rintro ⟨p, w, snap, evs, k, h1, h2, _, _⟩
+  cases p with
+  | zero => simp [k0, BSys.init] at h1; subst h1; cases h2
+  | succ p => simp [k0, BSys.init] at h1
+theorem knot_torn_12 : ¬ Torn k1 k2 := by
+  rintro ⟨p, w, snap, evs, k, h1, h2, _, _⟩
+  cases p with
+  | zero => simp [k1, k0, BSys.init, setPhaseB] at h1; subst h1; cases h2
+  | succ p => simp [k1, k0, BSys.init, setPhaseB] at h1
+theorem knot_torn_23 : ¬ Torn k2 k3 := by
+  rintro ⟨p, w, snap, evs, k, _, _, _, heq⟩
+  have := congrArg (fun s => s.commits) heq
+  simp [k3, k2, k1, k0, BSys.init, setPhaseB] at this
+theorem kreach3 : BReachableNT k0 k3 :=
+  .tail (.tail (.tail (.refl _) kstep01 knot_torn_01) kstep12 knot_torn_12) kstep23 knot_torn_23
+/-- C01 on the bytes: `claim` as a process on the JSON file of the demo batch -/
+example : batchA = logAfter batchA k3.commits 0 ∧
+    ∃ g t rest, replay batchA = .ok g ∧ readyTasks g "" = t :: rest ∧
+      (∀ u ∈ readyTasks g "", claimLe t u = true) ∧ t.isEpic = false ∧ isReady g t = true ∧
+      wrC = .append [Event.claim t.id "ag-9" (some 700), Event.state t.id .doing (some 700)] :=
+  C01_claim_outcome_on_the_bytes rfile [claimDecide "ag-9" "" 700] 0 rLimit ets batchA rfile_reads batchA_wf
+    (by intro d hd snap wr hs hdec; simp only [List.mem_singleton] at hd; subst hd; exact cd_wf snap wr hs hdec)
+    k3 kreach3 0 0 batchA wrC "ag-9" "" 700 rfl (by simp [k3, k2, k1, k0, BSys.init, setPhaseB])
+end ClaimBytesRun
+
 end JsonWitness
 
 /-! ### the lock as a file name: two processes find `.ergo/lock` missing, both create it, one gets in -/
